@@ -36,6 +36,8 @@ def run(ctx, rep):
     rep.run(RI.rule_whole_replacement, ctx, rep, "W5")
     rep.run(RI.rule_no_carry_over, ctx, rep, "W5")
     rep.run(RI.rule_scoped_replacement_spelling, ctx, rep, "W5")
+    rep.run(RI.rule_simultaneous_substitution, ctx, rep, "W5")
+    rep.run(RI.rule_typenames_are_keys, ctx, rep, "W5")
     rep.run(RA.rule_mutate_only_fresh, ctx, rep, "W5", "gtwrap/template_instantiator", P1_EXEMPT, min_sites=20)
     rep.run(RP.rule_submodule_once, ctx, rep, "W6")
     rep.run(RP.rule_boost_export_name, ctx, rep, "W7")
